@@ -80,6 +80,9 @@ const (
 
 var hook atomic.Pointer[vsched.Sched]
 
+// allowNeg: decrements are scheduled even when the conservative lower bound would go negative.
+var allowNeg bool
+
 func init() {
 	gsync.VerifYield = func(site int) {
 		if s := hook.Load(); s != nil {
@@ -180,7 +183,7 @@ func (r *runner) allowed() []int {
 		}
 		if !r.inCall[t] {
 			c := r.progs[t][r.callIdx[t]]
-			if c.K == "add" && c.D < 0 && r.lb+c.D < 0 {
+			if !allowNeg && c.K == "add" && c.D < 0 && r.lb+c.D < 0 {
 				continue
 			}
 		}
@@ -1505,6 +1508,7 @@ func main() {
 	flag.IntVar(&maxTotalCases, "total", 1<<30, "stop emitting after this many cases in this process")
 	totalMB := flag.Int("totalmb", 1<<20, "stop emitting after about this many MB of recorded steps")
 	dms := flag.Int("dms", 300, "deadline: the timeout d in milliseconds")
+	flag.BoolVar(&allowNeg, "neg", false, "do not gate decrements on the lower bound: the count may go negative (search after a broken tie, C02 only)")
 	siteMapFile := flag.String("sitemap", "", "canonical site table written by xlate_conc -sitemap")
 	flag.Parse()
 	maxTotalBytes = int64(*totalMB) << 20
@@ -1595,6 +1599,20 @@ func main() {
 	case "randprog":
 		for i := 0; i < *n && budgetLeft(em); i++ {
 			p := randProg(r)
+			if allowNeg {
+				// negative excursions (outside C01's side condition, inside C02's unconditional
+				// statement): some goroutines make their calls in reverse order, so that decrements
+				// overtake the increments that cover them and zero is reached from below
+				rev := false
+				for t := range p {
+					if r.IntN(2) == 0 || (t == len(p)-1 && !rev) {
+						rev = true
+						for a, b := 0, len(p[t])-1; a < b; a, b = a+1, b-1 {
+							p[t][a], p[t][b] = p[t][b], p[t][a]
+						}
+					}
+				}
+			}
 			for k := 0; k < 3; k++ {
 				st := []float64{0.3, 0.7, 0.9}[k]
 				em.emit(runCase("randprog", "random-program", withProbe(p), &randChooser{r, st}, probe()))
